@@ -78,7 +78,17 @@ pub fn run_points(run: &mut Run, o: &Objects) {
         });
         let a = match ans {
             None => "panic".into(),
-            Some(Ok(v)) => format!("ok {}", mzkh::fe_hex(&v)),
+            Some(Ok(v)) => {
+                use ff::PrimeField;
+                if v.to_repr().as_ref() != &bytes[..32] {
+                    run.ctx.oracle_fail(
+                        "fq-repr:accepted-noncanonical",
+                        "the proof scalar decoder accepted a non-canonical encoding",
+                        json!({"bytes_hex": hex(bytes), "decoded": mzkh::fe_hex(&v)}),
+                    );
+                }
+                format!("ok {}", mzkh::fe_hex(&v))
+            }
             Some(Err(e)) => format!("err {}", io_class(&e)),
         };
         let k = kind.trim_end_matches(char::is_numeric);
@@ -92,7 +102,17 @@ pub fn run_points(run: &mut Run, o: &Objects) {
         });
         let a = match ans {
             None => "panic".into(),
-            Some(Ok(v)) => format!("ok {}", mzkh::fe_hex(&v)),
+            Some(Ok(v)) => {
+                use midnight_curves::serde::SerdeObject;
+                if v.to_raw_bytes() != bytes[..32] {
+                    run.ctx.oracle_fail(
+                        "fq-raw:accepted-noncanonical",
+                        "the RawBytes scalar decoder accepted a non-canonical limb vector",
+                        json!({"bytes_hex": hex(bytes), "decoded": mzkh::fe_hex(&v)}),
+                    );
+                }
+                format!("ok {}", mzkh::fe_hex(&v))
+            }
             Some(Err(e)) => format!("err {}", io_class(&e)),
         };
         run.case(&format!("fq-raw:{k}"), a.starts_with("ok"), &format!("fq raw {}", hex(req)), &a);
@@ -326,6 +346,13 @@ pub fn run_arch(run: &mut Run, o: &Objects) {
             Some((Ok(arch), rest)) => {
                 let mut w = vec![];
                 arch.write(&mut w).unwrap();
+                if w[..] != bytes[..bytes.len() - rest] {
+                    run.ctx.oracle_fail(
+                        "arch-read:accepted-noncanonical",
+                        "ZkStdLibArch::read accepted bytes that are not the encoding of the decoded architecture",
+                        json!({"bytes_hex": hex(&bytes), "reencoded": hex(&w)}),
+                    );
+                }
                 format!("ok {} {} rest={rest}", arch_bits(&w), w[15])
             }
             Some((Err(e), _)) => format!("err {}", io_class(&e)),
@@ -458,6 +485,13 @@ fn mvk_case(run: &mut Run, o: &Objects, ks: &KeySet, is_a: bool, fi: usize, byte
             let mut w = vec![];
             vk.write(&mut w, fmt).unwrap();
             let canon = w[..] == bytes[..bytes.len() - rest];
+            if !canon {
+                run.ctx.oracle_fail(
+                    &format!("midnightvk-read:{fs}:accepted-noncanonical"),
+                    "MidnightVK::read (checked format) accepted bytes that are not the encoding of the decoded key",
+                    json!({"format": fs, "bytes_hex": hex(bytes), "reencoded": hex(&w)}),
+                );
+            }
             let pi = u32::from_le_bytes(w[17..21].try_into().unwrap());
             let mut dg = 7u128;
             for c in vk.vk().fixed_commitments() {
